@@ -1,7 +1,7 @@
 """helpers shared by the property checks"""
 from __future__ import annotations
 
-from ..poly import PW
+from ..poly import PW, Poly
 from ..specs.kernels import CATALOGUE, Straddle, Full, IntRing, Zones
 from ..summaries import summarize
 from ..store import interior_point, _is_single_atom
@@ -20,6 +20,53 @@ class OutputNeverWritten(Unsupported):
         self.label, self.names = label, names
 
 
+def summarize_with_shortcuts(S, fn, call_kwargs, extra, expected, label, depth=0):
+    """summarize(); when the kernel branches on `x.any()` of an input array, both paths are summarised HERE (same entry,
+    same arrays) and compared: the path taken when x has no non-zero element must give what the general path gives with
+    x := 0.  If it does, the shortcut is exact and the general path stands for the entry; if not, the entry carries a
+    problem (an early return that also skips work owed to the other operands)."""
+    from ..regions import CURRENT_CASE, NeedDecision
+    from ..values import Op
+    from ..pwtools import pw_equal
+    try:
+        return summarize(S, fn, call_kwargs, extra, expect_written=expected)
+    except NeedDecision as nd:
+        if not nd.key.startswith("any(") or depth >= 2:
+            raise
+        base = CURRENT_CASE[0]
+        c_true, c_false = base.decide(nd.key)
+        try:
+            CURRENT_CASE[0] = c_true
+            sm_t = summarize_with_shortcuts(S, fn, call_kwargs, extra, expected, label, depth + 1)
+            CURRENT_CASE[0] = c_false
+            sm_f = summarize_with_shortcuts(S, fn, call_kwargs, extra, (), label, depth + 1)
+        finally:
+            CURRENT_CASE[0] = base
+        names = set(nd.key[4:-1].split(";"))
+        if sm_t.raised is not None or sm_f.raised is not None or sm_t.problems or sm_f.problems or sm_t.unwritten:
+            return sm_t if (sm_t.raised is not None or sm_t.problems or sm_t.unwritten) else sm_f
+        zero = {}
+
+        def zeroed(expr):
+            if expr is None:
+                return None
+            m = {a: Poly() for a in expr.all_atoms() if a[0] == "f" and a[1] in names}
+            return expr.subs(m) if m else expr
+        bad = None
+        for n in sorted(set(sm_t.final) | set(sm_f.final)):
+            if n not in sm_t.final or n not in sm_f.final:
+                bad = "%s is an argument of one path only" % n
+                break
+            a, b = zeroed(sm_t.interior(n)), zeroed(sm_f.interior(n))
+            if a is None or b is None or not pw_equal(a, b):
+                bad = "%s: with %s zero the general path gives %s, the shortcut path leaves %s" % (n, ", ".join(sorted(names)), short(a, 160), short(b, 160))
+                break
+        if bad:
+            sm_t.problems.append(Op("Problem", pkind="shortcut", where=nd.text.split(" at ")[-1], stack=(),
+                                    msg="the branch taken when %s has no non-zero element does not give the result of the general path: %s" % (", ".join(sorted(names)), bad)))
+        return sm_t
+
+
 def entry_summary(S, e):
     """summary of one catalogue entry (cached per session)"""
     k = (id(S), e.label())
@@ -35,7 +82,7 @@ def entry_summary(S, e):
     if fn is None:
         res = (None, raised, call_kwargs, extra)
     else:
-        sm = summarize(S, fn, call_kwargs, extra, expect_written=tuple(e.expected()))
+        sm = summarize_with_shortcuts(S, fn, call_kwargs, extra, tuple(e.expected()), e.label())
         res = (sm, None, call_kwargs, extra)
     _cache[k] = res
     return res
